@@ -68,3 +68,9 @@ Definition slot_bytes (size : N) (body : bytes) : bytes :=
 Definition val_real_len (size len : N) : N := enc_len (size / 8) + enc_len len + len.
 Definition key_real_len (size klen voff noff : N) : N :=
   enc_len (size / 8) + enc_len klen + klen + enc_len (voff / 8) + enc_len (noff / 8).
+
+(** a slot size the allocator can produce: a class, or a multiple of 128 above the last class *)
+Definition valid_slot_size (c : pcfg) (S : N) : Prop :=
+  In S (size_ary c) \/ (last_class c < S /\ S mod 128 = 0).
+
+Definition cfg_ok (c : pcfg) : Prop := c = key_cfg \/ c = val_cfg.
